@@ -12,7 +12,7 @@ tie:    translator tr_gates.py; correspondence of the extracted tokeniser
         specification lines (18 field types, 11 directives, 10 syntax gates x
         Versions 0..10 x {pedantic, permissive}).
 search: every disagreement is judged against tok_spec / the HISTORY table."""
-import sys, os, json, subprocess, itertools, time
+import sys, os, json, subprocess, itertools, time, shutil
 from concurrent.futures import ThreadPoolExecutor
 sys.path.insert(0, os.path.join(os.path.dirname(os.path.abspath(__file__)), "..", "bin"))
 import vlib
@@ -495,6 +495,11 @@ def main():
         exe = vlib.build_harness(impl, os.path.join(V, "harness/C08/tok.c"))
         spec_exe = vlib.build_harness(impl, os.path.join(V, "harness/C08/spec.c"))
         vf_exe = vlib.build_harness(impl, os.path.join(V, "harness/C08/vf.c"))
+        # the build cache is shared and pruned by other checks running at the same
+        # time: work from private copies of the three executables
+        sd = vlib.scratch("verif-c08-")
+        exe, spec_exe, vf_exe = [shutil.copy(x, os.path.join(sd, os.path.basename(x) + "-%d" % i))
+                                 for i, x in enumerate((exe, spec_exe, vf_exe))]
         ok, log = vlib.coq_make(["C08/Token.vo", "C08/TokSpec.vo", "C08/Standards.vo", "Gen/Gates.vo", "C08/GatesDefs.vo", "C08/Names.vo"])
         drv = vlib.build_ocaml_driver("C08", "C08/Extract.v", "ocaml/C08/driver.ml") if ok else None
     except vlib.BuildError as e:
